@@ -130,7 +130,7 @@ pub fn op_kind(op: &Op) -> String {
             Damage::ArtDel(_) => "art-del", Damage::ArtSet(..) => "art-set", Damage::DirDel(_) => "dir-del",
             Damage::PdirDel => "pdir-del", Damage::Junk(_) => "junk", Damage::PjDel => "pj-del",
             Damage::PjGarbage(_) => "pj-garbage", Damage::PjStale(_) => "pj-stale", Damage::SjDel => "sj-del",
-            Damage::SjGarbage(_) => "sj-garbage", Damage::SjStale(_) => "sj-stale", Damage::Nop => "nop",
+            Damage::SjGarbage(_) => "sj-garbage", Damage::SjStale(_) => "sj-stale", Damage::SjFuture(_) => "sj-future", Damage::Nop => "nop",
         }),
     }
 }
